@@ -528,6 +528,34 @@ def callers_of(facts, *suffixes):
     return out
 
 
+_SOLE = {}
+
+
+def sole_caller(facts, body):
+    """A private (not `pub`) function whose every call site lies in one other function: the body of that function, else
+    None.  Such a helper is a piece of its caller (the result of `extract function`), so facts audited for the caller
+    -- who may construct a validated type, which panic-capable sites were argued safe -- extend to it."""
+    key = (id(facts), body.path)
+    if key in _SOLE:
+        return _SOLE[key]
+    out = None
+    p = strip_generics(body.path)
+    f = facts.fns.get(p)
+    if f is not None and f.get("vis") != "Public" and "{closure" not in body.path:
+        owners = set()
+        for b in facts.bodies:
+            if b is body:
+                continue
+            for _, t in b.calls():
+                d, r = callee_of(t)
+                if (d and strip_generics(d) == p) or (r and strip_generics(r) == p):
+                    owners.add(re.sub(r"::\{closure#\d+\}", "", b.path))
+        if len(owners) == 1:
+            out = facts.by_raw.get(owners.pop())
+    _SOLE[key] = out
+    return out
+
+
 def is_derive(body):
     """Body produced by a #[derive] / serde derive expansion."""
     s = body.span(body.j["span"])
